@@ -16,6 +16,7 @@ CONSTANTS
   CloseConn = TRUE
   HasFallback = TRUE
   AllowClose = TRUE
+  AllowDo = TRUE
   IdleCollects = 0
   RtoChanges = 0
   DeadlineTicks = FALSE
